@@ -275,7 +275,9 @@ func (s *Shard) setEpochEventHandler(e Event) {
 			continue
 		}
 
-		if ne.epoch-uint64(unpaidSince) >= maxUnpaidEpochDelay {
+		// the unpaid mark may be ahead of the epoch being processed (late event),
+		// do not let the unsigned subtraction wrap
+		if ne.epoch >= uint64(unpaidSince) && ne.epoch-uint64(unpaidSince) >= maxUnpaidEpochDelay {
 			l.Info("marking unpaid container as garbage",
 				zap.Stringer("cID", cID), zap.Int64("unpaidSince", unpaidSince))
 
